@@ -71,6 +71,17 @@ def step (st : St) (op : List String) : St × String :=
         (st', if o.ok then s!"ok pay={o.pays}" else s!"err pay={o.pays}")
       else (st, "bad-op")
     | _, _, _, _ => (st, "bad-op")
+  | ["burst", p, n, amt, rt] =>
+    match Driver.parseNat p, Driver.parseNat n, Driver.parseNat amt, parseOI rt with
+    | some p, some n, some amt, some rt =>
+      if p < nPeer ∧ amt < u64 ∧ 0 < n ∧ n ≤ 3000 then
+        -- n sequential credits (a slow `Pay` only delays the requests): successes and payment requests add up
+        let r := (List.range n).foldl (fun (acc : _ × Nat × Nat) _ =>
+          let (st', o) := credit cfg acc.1 p amt rt false
+          (st', acc.2.1 + (if o.ok then 1 else 0), acc.2.2 + o.pays)) (st, 0, 0)
+        (r.1, s!"ok n={r.2.1} pay={r.2.2}")
+      else (st, "bad-op")
+    | _, _, _, _ => (st, "bad-op")
   | ["debit", p, amt, rt, tt, pe] =>
     match Driver.parseNat p, Driver.parseNat amt, parseOI rt, parseOI tt, Driver.parseNat pe with
     | some p, some amt, some rt, some tt, some pe =>
